@@ -428,7 +428,11 @@ class WorkflowConductor(object):
         wf_ex_event = events.WorkflowExecutionEvent(status)
 
         # Push the event to all the active tasks. The event may trigger status changes to the task.
-        for idx, task_state in self.workflow_state.get_tasks_by_status(statuses.ACTIVE_STATUSES):
+        # Keep the current status of the tasks so it can be restored if the request is rejected.
+        active_tasks = self.workflow_state.get_tasks_by_status(statuses.ACTIVE_STATUSES)
+        active_task_statuses = [(task_state, task_state.get("status")) for _, task_state in active_tasks]
+
+        for idx, task_state in active_tasks:
             machines.TaskStateMachine.process_event(self.workflow_state, task_state, wf_ex_event)
 
         # Process the workflow status change event.
@@ -453,8 +457,12 @@ class WorkflowConductor(object):
         ):
             return
 
-        # Otherwise, if status has not changed as expected, then raise exception.
+        # Otherwise, if status has not changed as expected, then raise exception. A rejected
+        # request has no effect on the tasks either.
         if status != current_status and current_status == updated_status:
+            for task_state, task_status in active_task_statuses:
+                task_state["status"] = task_status
+
             raise exc.InvalidWorkflowStatusTransition(current_status, wf_ex_event.name)
 
     def get_workflow_initial_context(self):
